@@ -178,7 +178,11 @@ def call_builder(ops, kind, a, right=None):
         return ops.order_rows(list(a["cols"]), reverse=a.get("reverse"), limit=a.get("limit"))
     rt = TableDescription(table_name="pr__", column_names=list(right))
     if kind == "natural_join":
-        kw = {"check_all_common_keys_in_equi_spec": True} if a.get("check") else {}
+        kw = {}
+        if a.get("check"):
+            kw["check_all_common_keys_in_by" if a.get("legacy") else "check_all_common_keys_in_equi_spec"] = True
+        if a.get("legacy"):
+            return ops.natural_join(rt, by=list(a["on"]), jointype=a.get("jointype", "left"), **kw)
         return ops.natural_join(rt, on=list(a["on"]), jointype=a.get("jointype", "left"), **kw)
     if kind == "concat_rows":
         return ops.concat_rows(rt, id_column=None)
@@ -252,6 +256,11 @@ def make_probes(rng, declared, kinds, removed):
                     [c, c2, "rv__"], "-"))
         out.append(("join-no-check-non-key-common", "natural_join", {"on": [c], "jointype": "inner"}, [c, c2, "rv__"], "-"))
     out.append(("join-check-single-common-key", "natural_join", {"on": [c], "jointype": "inner", "check": True}, [c, "rv__"], "-"))
+    if c2:
+        out.append(("join-legacy-check-non-key-common", "natural_join", {"on": [c], "jointype": "left", "check": True, "legacy": True},
+                    [c, c2, "rv__"], "-"))
+        out.append(("join-legacy-by-missing-key", "natural_join", {"on": [c], "jointype": "left", "legacy": True}, ["rk__", "rv__"], "-"))
+    out.append(("join-legacy-by-ok", "natural_join", {"on": [c], "jointype": "inner", "legacy": True}, [c, "rv__"], "-"))
     out.append(("concat-extra-column", "concat_rows", {}, D + ["extra__"], "-"))
     if len(D) > 1:
         out.append(("concat-missing-column", "concat_rows", {}, D[1:], "-"))
